@@ -377,6 +377,19 @@ func C14(c *hx.Ctx) {
 			c.Violation(map[string]string{"kind": "nondeterministic-output", "instance": in.name}, fmt.Sprintf("%s: two sequential runs differ: %s vs %s", in.name, seq[i], r2.result()), map[string]any{"instance": in.name})
 		}
 	}
+	// the same catalogue once more in reverse order (every instance now runs after a different
+	// set of predecessors in this process): still the stand-alone results
+	for i := len(insts) - 1; i >= 0; i-- {
+		in := insts[i]
+		r := in.newRun()
+		for k := 0; k < in.calls; k++ {
+			r.step(k)
+		}
+		c.Count(1, 1)
+		if got := r.result(); got != fresh[i] {
+			c.Violation(map[string]string{"kind": "depends-on-process-history", "instance": in.name, "order": "reverse"}, fmt.Sprintf("%s: run after the instances that follow it in the catalogue it produces %s, alone in a fresh process %s", in.name, got, fresh[i]), map[string]any{"instance": in.name, "order": "reverse"})
+		}
+	}
 	// determinism also means: a defaulted configuration field and the same value written out
 	// give the same bytes, and two writers made from one configuration value agree
 	{
